@@ -813,7 +813,7 @@ def rule_registry_in_place(ctx, c, rule):
                     l = s["lhs"]["l"]
                     if l < len(g.locals) and re.search(r"^&mut " + REG + "$", g.locals[l]):
                         bad.append((g.path, s["span"], "assignment of a whole Vec<Receiver> through the registry guard"))
-    ctx.check(not bad and n >= 3, rule, "fastrace::collector::global_collector::SPSC_RXS", "-",
+    ctx.check(not bad and n >= 2, rule, "fastrace::collector::global_collector::SPSC_RXS", "-",
               "the receiver registry is only pushed to and retained in place (never taken, replaced, drained or cleared)",
               "%d uses, all push/retain/deref" % n, "%s" % bad[:4], extra="registry-ops")
     rs = c.retain_site()
